@@ -9,6 +9,8 @@ def harnesses():
     names = ["overflowing_pow", "pow", "wrapping_pow", "checked_pow", "saturating_pow"]
     for b in [1, 2, 3]:   # 7 and 8 bits: the flag-carrying forms did not finish in 1800 s (thorough run), not registered
         for w, fn in enumerate(names):
+            if b > 1 and w not in (1, 2):
+                continue   # overflowing/checked/saturating_pow above one bit: CBMC gives up (out of memory) - not registered
             out.append(H("c13_pow_narrow_%d_%s" % (b, fn), "C13", "c13::pow_narrow::<%d,%d>" % (b, w), unwind=b + 3,
                          tier="quick" if (b == 1 or (b == 3 and w == 2)) else "thorough", timeout=1800,
                          inst="Uint<%d,%d>" % (b, nlimbs(b)), role="c13::pow_narrow." + fn,
